@@ -22,8 +22,8 @@ open EmdModel
 /-- the writer rejects, at save time, every value whose kind it does not know -/
 theorem C15_rejects_unsupported :
     (∀ b, ∃ e, saveItem (.npbool b) = .error e) ∧ (∀ s, ∃ e, saveItem (.bytes s) = .error e) ∧
-    (∀ k, ∃ e, saveItem (.other k) = .error e) ∧ (∀ b t, ∃ e, saveItem (.seqNp b t) = .error e) :=
-  ⟨fun _ => ⟨_, rfl⟩, fun _ => ⟨_, rfl⟩, fun _ => ⟨_, rfl⟩, fun _ _ => ⟨_, rfl⟩⟩
+    (∀ k, ∃ e, saveItem (.other k) = .error e) :=
+  ⟨fun _ => ⟨_, rfl⟩, fun _ => ⟨_, rfl⟩, fun _ => ⟨_, rfl⟩⟩
 
 /-- …also when it sits anywhere inside a dictionary: the whole save raises, nothing half-accepted is left to read -/
 theorem C15_rejects_in_dict (k : String) (v : PyVal) (rest : List (String × PyVal)) (e : Err)
